@@ -311,6 +311,18 @@ func DoEcDh(localPrivate []byte, remotePublic *EcPoint, ec elliptic.Curve) *EcPo
 	return &point
 }
 
+// EcFieldElementBytes converts a field element (e.g. the x-coordinate of an ECDH shared point) to its
+// fixed-length octet string (FE2OS, BSI TR-03111 3.1.3): the length is that of the field, so leading
+// zero octets are kept. The ICAO 9303-11 key derivation hashes this octet string.
+func EcFieldElementBytes(ec elliptic.Curve, x *big.Int) []byte {
+	fieldLen := (ec.Params().BitSize + 7) / 8
+	if x.Sign() < 0 || len(x.Bytes()) > fieldLen {
+		// not a field element of this curve: keep the minimal encoding
+		return x.Bytes()
+	}
+	return x.FillBytes(make([]byte, fieldLen))
+}
+
 func RsaDecryptWithPublicKey(ciphertext []byte, publicKey RsaPublicKey) ([]byte, error) {
 	if len(ciphertext) < 1 {
 		return nil, fmt.Errorf("[RsaDecryptWithPublicKey] ciphertext too short (len:%01d)", len(ciphertext))
